@@ -104,6 +104,20 @@ class BillingSufficiencyCriteria'''),
     dict(id="c10-benign-monthly-notnull", property="C10", kind="benign", file=S,
          old='                self.data["observed"]\n                .groupby(self.data.index.month)\n                .apply(lambda x: x.notna().mean())',
          new='                self.data.observed\n                .groupby(self.data.index.month)\n                .apply(lambda s: s.notnull().mean())'),
+    dict(id="c10-hourly-flags-from-filled-temperature", property="C10", kind="break", expect_rule="R10.2", file=HD,
+         old='    df.loc[df["interpolated_temperature"] == 1, "temperature"] = np.nan\n', new='',
+         ),
+    dict(id="c10-hourly-usage-not-blanked", property="C10", kind="break", expect_rule="R10.2", file=HD,
+         old='    df.loc[df["interpolated_observed"] == 1, "observed"] = np.nan\n', new=''),
+    dict(id="c10-hourly-null-flag-swapped", property="C10", kind="break", expect_rule="R10.2", file=HD,
+         old='    df["temperature_null"] = df["temperature"].isnull().astype(float)', new='    df["temperature_null"] = df["temperature"].notnull().astype(float)'),
+    dict(id="c10-benign-hourly-blank-loop", property="C10", kind="benign", file=HD,
+         old='    df.loc[df["interpolated_observed"] == 1, "observed"] = np.nan\n    df.loc[df["interpolated_temperature"] == 1, "temperature"] = np.nan\n    if "ghi" in df.columns:\n        df.loc[df["interpolated_ghi"] == 1, "ghi"] = np.nan\n',
+         new='    for col in ("observed", "temperature", "ghi"):\n        if col in df.columns:\n            df.loc[df[f"interpolated_{col}"] == 1, col] = np.nan\n'),
+    dict(id="c10-benign-hourly-null-flag-complement", property="C10", kind="benign", file=HD,
+         old='    df["temperature_null"] = df["temperature"].isnull().astype(float)', new='    df["temperature_null"] = 1.0 - df["temperature_not_null"]'),
+    dict(id="c10-benign-hourly-mask-form", property="C10", kind="benign", file=HD,
+         old='    df.loc[df["interpolated_temperature"] == 1, "temperature"] = np.nan\n', new='    df["temperature"] = df["temperature"].mask(df["interpolated_temperature"] == 1)\n'),
     dict(id="c10-benign-not-ge", property="C10", kind="benign", file=S,
          old="if fraction_valid_days < self.min_fraction_daily_coverage:", new="if not (fraction_valid_days >= self.min_fraction_daily_coverage):"),
     dict(id="c10-benign-span-parenthesised", property="C10", kind="benign", file=S,
